@@ -993,29 +993,25 @@ func (e *c19Env) stress(rec *kit.Recorder, c *c19Case) error {
 
 // ---------------------------------------------------------------------------
 
-func c19RareInt(t *rapid.T, pct int, label string) bool {
-	return rapid.IntRange(0, 99).Draw(t, label) >= 100-pct
-}
-
 func genC19(rt *rapid.T) c19Case {
 	g := kit.G{T: rt}
 	c := c19Case{Repos: g.Int(1, 3, "repos")}
-	stressPct := 3
+	stressPct := 5
 	if v, err := strconv.Atoi(os.Getenv("VERIF_C19_STRESS_PCT")); err == nil {
 		stressPct = v
 	}
-	c.Stress = c19RareInt(rt, stressPct, "stress")
-	// rapid favours small indices: common choices first
+	c.Stress = g.Bool(stressPct, "stress")
 	kinds := []string{"write", "scan", "write", "scan", "write", "meta", "search", "delete", "write", "scan", "gc", "list", "write", "delete", "meta", "search"}
 	formats := []int{16, 16, 16, 17, 16, 15, 16, 17, 15, 18}
 	op := rapid.Custom(func(t *rapid.T) c19Op {
-		o := c19Op{K: kinds[rapid.IntRange(0, len(kinds)-1).Draw(t, "op")]}
+		tg := kit.G{T: t}
+		o := c19Op{K: kit.Pick(tg, kinds, "op")}
 		switch o.K {
 		case "write":
 			o.R = rapid.IntRange(0, 2).Draw(t, "repo")
-			o.F = formats[rapid.IntRange(0, len(formats)-1).Draw(t, "format")]
+			o.F = kit.Pick(tg, formats, "format")
 			o.Keep = rapid.Bool().Draw(t, "keep")
-			o.Old = c19RareInt(t, 8, "old")
+			o.Old = tg.Bool(8, "old")
 		case "delete", "meta":
 			o.Sel = rapid.IntRange(0, 7).Draw(t, "sel")
 		}
@@ -1036,7 +1032,7 @@ func TestVerif_C19(t *testing.T) {
 		t.Fatalf("harness assumes index format 16 / next 17, tree has %d / %d", index.IndexFormatVersion, index.NextIndexFormatVersion)
 	}
 	rec := kit.Open(t, "C19",
-		"rapid-generated histories over a temporary index directory with 1-3 repositories: write a shard file r<i>_v<format>.00000.zoekt (format 16 mostly, 15 / 17 / unreadable 18; create, or replace by rename with a new content version, keeping or dropping the .meta sidecar, 8% with an mtime older than everything before), delete, sidecar update, scan(), search, list, forced GC; the watcher is a hand-built DirectoryWatcher around the real loader and shardedSearcher, scan() is an explicit action (no fsnotify); every document names its repository, content version and position; non-trivial = a shard file that was loaded got replaced and a scan followed; distinct by the JSON of the history; mode:stress cases (about 5%: rapid favours the boundary) run the same actions with concurrent searchers, a lister, a scanner loop and forced GC under -race",
+		"rapid-generated histories over a temporary index directory with 1-3 repositories: write a shard file r<i>_v<format>.00000.zoekt (format 16 mostly, 15 / 17 / unreadable 18; create, or replace by rename with a new content version, keeping or dropping the .meta sidecar, 8% with an mtime older than everything before), delete, sidecar update, scan(), search, list, forced GC; the watcher is a hand-built DirectoryWatcher around the real loader and shardedSearcher, scan() is an explicit action (no fsnotify); every document names its repository, content version and position; non-trivial = a shard file that was loaded got replaced and a scan followed; distinct by the JSON of the history; mode:stress cases (5%) run the same actions with concurrent searchers, a lister, a scanner loop and forced GC under -race",
 		"file modification times are set by the harness from a logical clock so that every write changes the mtime the watcher compares (two writes within the file system's timestamp granularity are out of scope); a file written with an older mtime has no sidecar",
 		"newest-format rule as documented in watcher.go scan(): per name prefix before the last '_', the files whose name carries the highest format version not above max(IndexFormatVersion, NextIndexFormatVersion); one shard file per repository",
 		"shards are deleted together with their sidecar; sidecars are never removed on their own",
